@@ -457,3 +457,62 @@ Proof.
   - destruct (select_to_inline S max_score dic (o :: occ')) as [ti|e]; [|discriminate].
     apply (inline_den rank sigma fuel ti dic dic' Hac H).
 Qed.
+
+(* ---------- find_occurrences records only real mentions ---------- *)
+Definition mentions (dic : list (Z * mcell)) (key sub : Z) : Prop :=
+  exists c, lookup key dic = Some c /\ In sub (extract_subcells (cgeom c)).
+
+Definition occ_ok (dic : list (Z * mcell)) (occ : list (Z * list Z)) : Prop :=
+  forall sub l, lookup sub occ = Some l -> forall key, In key l -> mentions dic key sub.
+
+Lemma lookup_app_fresh {V} (d : list (Z * V)) k v j : lookup k d = None ->
+  lookup j (d ++ [(k, v)]) = if Z.eqb k j then match lookup j d with Some x => Some x | None => Some v end else lookup j d.
+Proof.
+  intros Hf. induction d as [|[k0 v0] r IH]; cbn [app lookup] in *.
+  - destruct (Z.eqb k j); reflexivity.
+  - destruct (Z.eqb k0 k) eqn:E0; [discriminate|]. destruct (Z.eqb k0 j) eqn:Ej.
+    + destruct (Z.eqb k j); reflexivity.
+    + apply IH. exact Hf.
+Qed.
+
+Lemma occ_append_ok dic s key occ : occ_ok dic occ -> mentions dic key s -> occ_ok dic (occ_append s key occ).
+Proof.
+  intros Hok Hm sub l Hl k Hk. unfold occ_append in Hl. destruct (lookup s occ) as [l0|] eqn:Es.
+  - rewrite lookup_update in Hl. destruct (Z.eqb s sub) eqn:E.
+    + apply Z.eqb_eq in E; subst sub. injection Hl as <-. apply in_app_or in Hk.
+      destruct Hk as [Hk|[<-|[]]]; [exact (Hok _ _ Es _ Hk)|exact Hm].
+    + exact (Hok _ _ Hl _ Hk).
+  - rewrite (lookup_app_fresh _ _ _ _ Es) in Hl. destruct (Z.eqb s sub) eqn:E.
+    + apply Z.eqb_eq in E; subst sub. rewrite Es in Hl. injection Hl as <-. destruct Hk as [<-|[]]. exact Hm.
+    + exact (Hok _ _ Hl _ Hk).
+Qed.
+
+Lemma occ_visit_ok dic key : forall subs stack enq occ,
+  occ_ok dic occ -> (forall s, In s subs -> mentions dic key s) ->
+  occ_ok dic (snd (occ_visit key subs stack enq occ)).
+Proof.
+  induction subs as [|s r IH]; intros stack enq occ Hok Hm; cbn [occ_visit]; [exact Hok|].
+  destruct (memZ s enq); apply IH;
+    try (apply occ_append_ok; [exact Hok|apply Hm; left; reflexivity]);
+    intros x Hx; apply Hm; right; exact Hx.
+Qed.
+
+Lemma occ_loop_ok dic : forall fuel stack enq occ out,
+  occ_loop fuel dic stack enq occ = Ok out -> occ_ok dic occ -> occ_ok dic out.
+Proof.
+  induction fuel as [|f IH]; intros stack enq occ out H Hok; cbn [occ_loop] in H.
+  - destruct stack; [injection H as <-; exact Hok|discriminate].
+  - destruct stack as [|key rest]; [injection H as <-; exact Hok|].
+    destruct (lookup key dic) as [c|] eqn:Ek; [|discriminate].
+    pose proof (occ_visit_ok dic key (extract_subcells (cgeom c)) rest enq occ Hok) as Hv.
+    destruct (occ_visit key (extract_subcells (cgeom c)) rest enq occ) as [[st' en'] occ'].
+    cbn [snd] in Hv. apply (IH _ _ _ _ H). apply Hv. intros s Hs. exists c. auto.
+Qed.
+
+(* occurrences[sub] lists only cells whose geometry really mentions sub *)
+Theorem find_occurrences_sound dic occ : find_occurrences dic = Ok occ ->
+  forall sub l, lookup sub occ = Some l -> forall key, In key l -> mentions dic key sub.
+Proof.
+  unfold find_occurrences. intros H. apply (occ_loop_ok dic _ _ _ _ _ H).
+  intros sub l Hl. discriminate.
+Qed.
